@@ -313,7 +313,12 @@ func init() {
 			{Name: "big-trees", Space: spaceList(treeFamilies()), Eval: stdEval("C13", staticGrid(gridSpec{P1: []int{0}, P2: allP2, P4: []int{0, 1}, P5: []int{2}, SZ: []int{1}}.list()), or),
 				Bound: "complete binary/ternary trees, caterpillars and spiders up to 40 nodes, both directions, 3 edge orders"},
 		}
+		one := gridSpec{P1: []int{0}, P2: []int{0}, P4: []int{0}, P5: []int{2}, SZ: []int{1}}.list()
+		ps = append(ps, &Pass{Name: "tree-orders-7..9", Space: spaceTreeOrders(7, 9), Eval: stdEval("C13", staticGrid(one), or),
+			Bound: "every ordered rooted tree with 7..9 nodes (Catalan(n-1) each), as out-tree and in-tree, edge list in depth-first and breadth-first order and every list within ONE edge move of those x default algorithms"})
 		if tier == "thorough" {
+			ps = append(ps, &Pass{Name: "tree-orders-10..11", Space: spaceTreeOrders(10, 11), Eval: stdEval("C13", staticGrid(one), or),
+				Bound: "every ordered rooted tree with 10..11 nodes, as out-tree and in-tree, depth-first and breadth-first edge order and every list within one edge move of those x default algorithms"})
 			ps = append(ps, &Pass{Name: "trees-7", Space: spaceGN(7, 7, func(d int) int { return d + 1 }, 0, trees), Eval: stdEval("C13", staticGrid(gridSpec{P1: []int{0}, P2: allP2, P4: []int{0}, P5: []int{2}, SZ: []int{1}}.list()), or),
 				Bound: "every out-tree and in-tree with 7 edges, every edge order x greedy x {ns,lp} x sink"})
 		}
